@@ -850,9 +850,15 @@ impl Xot {
                     b_ignore_attributes += 1;
                 }
             }
+            let _ = b_ignore_attributes;
             // we expect the amount of non-ignored attributes in a to
             // be the same as the amount of non-ignored attributes in b
-            compare_attributes_count == b_attributes.len() - b_ignore_attributes
+            // (count b's directly: a name may be listed more than once)
+            compare_attributes_count
+                == b_attributes
+                    .keys()
+                    .filter(|key| !ignore_attributes.contains(key))
+                    .count()
         } else {
             self.advanced_compare_value(a, b, |a, b| a == b)
         }
